@@ -1,7 +1,7 @@
 #!/bin/bash
 # tools/trymutant.sh <patch.diff> <check-id> [tier] : apply a seeded change to /repo, run one check, undo.
 set -u
-P="$1"; ID="$2"; TIER="${3:-quick}"
+P="$(realpath "$1")"; ID="$2"; TIER="${3:-quick}"
 cd /verif
 git -C /repo diff --quiet || { echo "/repo is dirty"; exit 3; }
 git -C /repo apply "$P" || { echo "patch does not apply"; exit 3; }
